@@ -24,6 +24,7 @@ run rockredis zz_fix_c11c_test.go TestZZSetRangeHugeOffset
 run rockredis zz_fix_c07_test.go TestZZHClearSameLogSameResult
 run rockredis zz_fix_c07b_test.go TestZZZFixKeySameLogSameResult
 run transport/rafthttp zz_fix_c16_test.go TestZZMsgAppV2CorruptLength
+run node zz_fix_c06_test.go TestZZSingleReplicaAnswersOnlyAfterWALWrite
 run node zz_fix_c11d_test.go TestZZScanNegativeCountEmptyPage
 run node zz_fix_c13_test.go TestZZRevScanWithoutCountKeepsDirection
 run node zz_fix_c13b_test.go TestZZScanCountAboveStoreLimitIsNotTheLastPage
